@@ -9,7 +9,7 @@ from typing import Dict, List, Optional
 
 from ..cfg import analysis, FuncAnalysis, Node, N, E, decompose
 from ..lib import prov, is_convert_call, opt_attr
-from ..model import AnalysisError, call_attr, kwarg, unparse, walk_shallow, norm_stmt, names_in
+from ..model import AnalysisError, call_attr, kwarg, unparse, walk_shallow, norm_stmt, names_in, kwarg_given
 from .c09 import branch_of
 
 
@@ -244,7 +244,7 @@ def union_stages(run):
     FLAGS = ("no_data_loss", "no_explicit_cast")
     out = []
     for n, c in fa.all_calls():
-        if call_attr(c) != "enter" or kwarg(c, "options") is None or branch_of(fa, n) != "|":
+        if call_attr(c) != "enter" or kwarg_given(c, "options") is None or branch_of(fa, n) != "|":
             continue
         o = kwarg(c, "options")
         ctor = None
@@ -360,7 +360,7 @@ def r18f(run):
                           f"besides) its own pass",
                   necessity="every nesting level of such a type parses its input twice: an invalid leaf under d levels "
                             "costs 2^d - 1 conversions instead of d", node=c)
-    staged = [(n, c) for n, c in fa.all_calls() if call_attr(c) == "enter" and kwarg(c, "options") is not None]
+    staged = [(n, c) for n, c in fa.all_calls() if call_attr(c) == "enter" and kwarg_given(c, "options") is not None]
     for n, c in staged:
         b = branch_of(fa, n)
         run.check("R18f", f, f"staged child contexts exist only in the union branch (`{b}`)", b == "|",
